@@ -298,6 +298,9 @@ def dispatch (op : String) (args : List String) : Option String :=
   -- structure of what goes on the wire); the model only says whether the message decodes
   -- a failing primitive leaves no unauthenticated message behind (checked by the harness; generated with valid keys only)
   | "msg.failsign" => some "ok"
+  -- a message of several hundred KiB produced by the library is accepted back by the library with the payload intact
+  -- (checked by the harness; generated with valid keys only)
+  | "msg.huge" => some "ok"
   | "msg.resign" => some (match args with
       | _ :: h :: _ => (match unhex h with
           | some b => (match unmarshal .sign .raw b with | .ok _ => "ok" | .err => "err" | .unmodelled => "unmodelled")
